@@ -1,13 +1,13 @@
 #!/usr/bin/env python3
 """Generates MANIFEST.json from manifest_src.json (claims) + properties.jsonl (ids)."""
-import json, os
+import glob, json, os
 HERE = os.path.dirname(os.path.abspath(__file__))
 src = json.load(open(os.path.join(HERE, "manifest_src.json")))
 ids = [json.loads(l)["id"] for l in open(os.path.join(HERE, "properties.jsonl"))]
 checks, na = [], []
 for pid in ids:
     c = src["claims"].get(pid)
-    if c and c.get("claimed", True) and os.path.exists(os.path.join(HERE, "conf", pid + ".json")):
+    if c and c.get("claimed", True) and (glob.glob(os.path.join(HERE, "conf", pid + ".json")) or glob.glob(os.path.join(HERE, "conf", pid + ".*.json"))):
         checks.append({
             "property_id": pid,
             "quick_cmd": "./check %s quick" % pid,
